@@ -1,2 +1,11 @@
 import Plonk.Props.C01
 #print axioms Plonk.Props.C01.prover_transcript_prefix
+#print axioms Plonk.Props.C01.opening_identity
+#print axioms Plonk.Props.C01.opening_identity_at
+#print axioms Plonk.Props.C01.capacity
+#print axioms Plonk.Props.C01.capacity_boundary_examples
+#print axioms Plonk.Props.C01.compile_truncated_degree_too_large_iff
+#print axioms Plonk.Props.C01.compile_capacity
+#print axioms Plonk.Props.C01.commitments_fit
+#print axioms Plonk.Props.C01.commit_accepts
+#print axioms Plonk.Props.C01.quotient_shares_eval
